@@ -258,3 +258,32 @@ Fixpoint trun (iv rt : N) (s : tst) (l : list (N * ev)) : option tst :=
   | [] => Some s
   | x :: l' => match tstep iv rt s x with Some s' => trun iv rt s' l' | None => None end
   end.
+
+(* ---------- (2t) the frr-k8s debouncer with deadlines ----------
+   frrk8s_config_controller.go debouncer: `timeOut = time.After(reloadInterval)`
+   only when timerSet is false; the timer case emits the event and clears timerSet. *)
+Record tkst := mk_tk { tk_st : kst; tk_deadline : option N }.
+Definition tkinit : tkst := mk_tk kinit None.
+
+Definition tkstep (iv : N) (s : tkst) (x : N * kev) : option tkst :=
+  let (now, e) := x in
+  match kstep (tk_st s) e with
+  | None => None
+  | Some s' =>
+      match e with
+      | KNotify => Some (mk_tk s' (if k_timer (tk_st s) then tk_deadline s else Some (now + iv)%N))
+      | KFire => match tk_deadline s with
+                 | Some d => if N.leb d now then Some (mk_tk s' None) else None
+                 | None => None
+                 end
+      end
+  end.
+
+Fixpoint tkrun (iv : N) (s : tkst) (l : list (N * kev)) : option tkst :=
+  match l with
+  | [] => Some s
+  | x :: l' => match tkstep iv s x with Some s' => tkrun iv s' l' | None => None end
+  end.
+
+Definition k_all_notify (l : list (N * kev)) : bool :=
+  forallb (fun x => match snd x with KNotify => true | KFire => false end) l.
